@@ -158,6 +158,141 @@ async fn ns_case(log: &mut Log, st: &mut Stats, rng: &mut Rng) {
     probe.shutdown();
 }
 
+/// Realistic duplicate-connection flow on one node: several sessions to the same peer are
+/// opened, registered and authenticated in a random order (with an unauthenticated
+/// name-spoofing session thrown in), querying ready/visible state after each commit.
+async fn ns_flow(log: &mut Log, st: &mut Stats, rng: &mut Rng) {
+    let this = *rng.pick(&["m@h", "b@b", "a@a"]);
+    let peer = *rng.pick(&["p@h", "a@z", "zz@h"]);
+    let mut probe = NodeStateProbe::new(this).await;
+    log.rec(format!("ns {this}"), "ok");
+    let n = rng.range(2, 5);
+    let dir_mode = rng.below(3);
+    let mut pids = Vec::new();
+    for _ in 0..n {
+        let srv = match dir_mode {
+            0 => true,
+            1 => false,
+            _ => rng.chance(1, 2),
+        };
+        let pid = probe.open(srv).await;
+        log.rec(format!("open {srv} {pid}"), "ok");
+        pids.push(pid);
+    }
+    let mut order = pids.clone();
+    rng.shuffle(&mut order);
+    for pid in &order {
+        let nonce = *rng.pick(&[0u64, 0, 4, 4, 9]);
+        let r = probe.register(*pid, peer, nonce);
+        log.rec(format!("register {pid} {peer} {nonce}"), r.to_string());
+        log.rec(format!("checkc {pid}"), probe.check_candidate(*pid));
+    }
+    // a spoofer: claims the same name, never authenticates
+    let spoof_srv = rng.chance(1, 2);
+    let spoof = probe.open(spoof_srv).await;
+    log.rec(format!("open {spoof_srv} {spoof}"), "ok");
+    let spoof_nonce = *rng.pick(&[0u64, 1]);
+    let r = probe.register(spoof, peer, spoof_nonce);
+    log.rec(format!("register {spoof} {peer} {spoof_nonce}"), r.to_string());
+    rng.shuffle(&mut order);
+    for pid in &order {
+        if rng.chance(1, 6) {
+            continue;
+        }
+        st.bump("flow_commit");
+        let obs = match probe.commit(*pid) {
+            None => "none".to_string(),
+            Some((s, mut l)) => {
+                l.sort_unstable();
+                if !l.is_empty() {
+                    st.bump("ns_commit_with_losers");
+                }
+                for x in &l {
+                    if rng.chance(1, 2) {
+                        // the handler stops losers; their exit removes them from the state
+                        probe.close(*x);
+                    }
+                }
+                format!("{s} {}", show_u64s(&l))
+            }
+        };
+        log.rec(format!("commit {pid}"), obs);
+        log.rec("visible", show_u64s(&probe.visible()));
+        for q in &pids {
+            log.rec(format!("elected {q}"), probe.is_elected(*q).to_string());
+        }
+        log.rec(format!("checkc {spoof}"), probe.check_candidate(spoof));
+    }
+    probe.shutdown();
+}
+
+/// Paired experiment for the non-interference clause: the same duplicate-connection flow is
+/// run on two real `NodeServerState`s, one of which additionally holds an UNAUTHENTICATED
+/// session claiming the peer's name (any direction / nonce, inserted at a random moment).
+/// Every answer given to the genuine sessions must be identical in both runs.
+/// op `ni <what> <idx>`; impl `<answer with spoofer> | <answer without>`, pids shown as
+/// creation indices so that the two runs are comparable.
+async fn ns_noninterference(log: &mut Log, st: &mut Stats, rng: &mut Rng) {
+    let this = *rng.pick(&["m@h", "b@b", "a@a"]);
+    let peer = *rng.pick(&["p@h", "a@z", "zz@h"]);
+    let mut p1 = NodeStateProbe::new(this).await;
+    let mut p2 = NodeStateProbe::new(this).await;
+    let n = rng.range(2, 5) as usize;
+    let spoof_at = rng.below(n as u64 + 1) as usize;
+    let dir_mode = rng.below(3);
+    let (mut ids1, mut ids2) = (Vec::new(), Vec::new());
+    let mut spoof = None;
+    for i in 0..=n {
+        if i == spoof_at {
+            let sp = p1.open(rng.chance(1, 2)).await;
+            p1.register(sp, peer, *rng.pick(&[0u64, 1, 4]));
+            spoof = Some(sp);
+        }
+        if i == n {
+            break;
+        }
+        let srv = match dir_mode {
+            0 => true,
+            1 => false,
+            _ => rng.chance(1, 2),
+        };
+        ids1.push(p1.open(srv).await);
+        ids2.push(p2.open(srv).await);
+    }
+    let idx = |ids: &Vec<u64>, l: &Vec<u64>| {
+        let mut v: Vec<u64> = l.iter().map(|p| ids.iter().position(|q| q == p).map(|x| x as u64).unwrap_or(999)).collect();
+        v.sort_unstable();
+        show_u64s(&v)
+    };
+    log.rec(format!("ni begin {this} {peer} n={n} spoof_at={spoof_at}"), "ok");
+    for i in 0..n {
+        let nonce = *rng.pick(&[0u64, 0, 4, 4, 9]);
+        p1.register(ids1[i], peer, nonce);
+        p2.register(ids2[i], peer, nonce);
+        log.rec(format!("ni checkc {i}"), format!("{} | {}", p1.check_candidate(ids1[i]), p2.check_candidate(ids2[i])));
+    }
+    let mut order: Vec<usize> = (0..n).collect();
+    rng.shuffle(&mut order);
+    for i in order {
+        st.bump("ni_commit");
+        let show = |r: Option<(bool, Vec<u64>)>, ids: &Vec<u64>| match r {
+            None => "none".to_string(),
+            Some((s, l)) => format!("{s} {}", idx(ids, &l)),
+        };
+        let r1 = show(p1.commit(ids1[i]), &ids1);
+        let r2 = show(p2.commit(ids2[i]), &ids2);
+        log.rec(format!("ni commit {i}"), format!("{r1} | {r2}"));
+        let v1: Vec<u64> = p1.visible().into_iter().filter(|p| Some(*p) != spoof).collect();
+        log.rec("ni visible".to_string(), format!("{} | {}", idx(&ids1, &v1), idx(&ids2, &p2.visible())));
+        for j in 0..n {
+            log.rec(format!("ni elected {j}"), format!("{} | {}", p1.is_elected(ids1[j]), p2.is_elected(ids2[j])));
+            log.rec(format!("ni checkc {j}"), format!("{} | {}", p1.check_candidate(ids1[j]), p2.check_candidate(ids2[j])));
+        }
+    }
+    p1.shutdown();
+    p2.shutdown();
+}
+
 fn exhaustive(log: &mut Log, st: &mut Stats) {
     // every candidate list of length ≤ 3 over nonce ∈ {0,1,2}, both flags, both name orders
     // and the equal-name case, ids = a permutation-representative set {1,2,3} in every order.
@@ -187,6 +322,106 @@ fn exhaustive(log: &mut Log, st: &mut Stats) {
     st.bump("exhaustive_done");
 }
 
+/// Re-execute a recorded op file (corpus entry or the segment of a replay file) on the real
+/// code. Actor pids differ from run to run, so recorded pids are remapped through the
+/// `open` ops; the op lines written to the log carry the NEW pids.
+async fn replay_ops(log: &mut Log, st: &mut Stats, path: &str) {
+    let text = std::fs::read_to_string(path).unwrap_or_default();
+    let mut probe: Option<NodeStateProbe> = None;
+    let mut map: std::collections::HashMap<u64, u64> = Default::default();
+    let m = |map: &std::collections::HashMap<u64, u64>, p: &str| -> u64 {
+        let v: u64 = p.parse().unwrap_or(0);
+        *map.get(&v).unwrap_or(&v)
+    };
+    for line in text.lines() {
+        let w: Vec<&str> = line.split_whitespace().collect();
+        st.bump("replayed_ops");
+        match w.as_slice() {
+            ["elect", this, peer, cs] => {
+                let c: Vec<(u64, bool, u64)> = if *cs == "-" {
+                    vec![]
+                } else {
+                    cs.split(',')
+                        .filter_map(|x| {
+                            let f: Vec<&str> = x.split(':').collect();
+                            Some((f.first()?.parse().ok()?, f.get(1)? == &"true", f.get(2)?.parse().ok()?))
+                        })
+                        .collect()
+                };
+                do_elect(log, st, this, peer, &c);
+            }
+            ["world", a, b, cs] => {
+                let c: Vec<(bool, u64, u64, u64)> = cs
+                    .split(',')
+                    .filter_map(|x| {
+                        let f: Vec<&str> = x.split(':').collect();
+                        Some((f.first()? == &"true", f.get(1)?.parse().ok()?, f.get(2)?.parse().ok()?, f.get(3)?.parse().ok()?))
+                    })
+                    .collect();
+                do_world(log, st, a, b, &c);
+            }
+            ["ns", this] => {
+                if let Some(p) = probe.take() {
+                    p.shutdown();
+                }
+                probe = Some(NodeStateProbe::new(this).await);
+                map.clear();
+                log.rec(line, "ok");
+            }
+            _ => {
+                let Some(p) = probe.as_mut() else {
+                    log.rec(line, "no-state");
+                    continue;
+                };
+                match w.as_slice() {
+                    ["open", srv, old] => {
+                        let pid = p.open(*srv == "true").await;
+                        map.insert(old.parse().unwrap_or(0), pid);
+                        log.rec(format!("open {srv} {pid}"), "ok");
+                    }
+                    ["register", pid, peer, nonce] => {
+                        let pid = m(&map, pid);
+                        let r = p.register(pid, peer, nonce.parse().unwrap_or(0));
+                        log.rec(format!("register {pid} {peer} {nonce}"), r.to_string());
+                    }
+                    ["checkc", pid] => {
+                        let pid = m(&map, pid);
+                        log.rec(format!("checkc {pid}"), p.check_candidate(pid));
+                    }
+                    ["checks", peer, nonce] => {
+                        log.rec(line, p.check_session(peer, nonce.parse().unwrap_or(0)));
+                    }
+                    ["commit", pid] => {
+                        let pid = m(&map, pid);
+                        let obs = match p.commit(pid) {
+                            None => "none".to_string(),
+                            Some((s, mut l)) => {
+                                l.sort_unstable();
+                                format!("{s} {}", show_u64s(&l))
+                            }
+                        };
+                        log.rec(format!("commit {pid}"), obs);
+                    }
+                    ["elected", pid] => {
+                        let pid = m(&map, pid);
+                        log.rec(format!("elected {pid}"), p.is_elected(pid).to_string());
+                    }
+                    ["close", pid] => {
+                        let pid = m(&map, pid);
+                        p.close(pid);
+                        log.rec(format!("close {pid}"), "ok");
+                    }
+                    ["visible"] => log.rec("visible", show_u64s(&p.visible())),
+                    _ => log.rec(line, "unsupported-in-replay"),
+                }
+            }
+        }
+    }
+    if let Some(p) = probe.take() {
+        p.shutdown();
+    }
+}
+
 #[tokio::main(flavor = "current_thread")]
 async fn main() {
     let args = Args::parse();
@@ -196,6 +431,17 @@ async fn main() {
     let mut rng = Rng::new(seed);
     let mut log = Log::create(std::path::Path::new(&out)).unwrap();
     let mut st = Stats::default();
+
+    // corpus / replay files first: `--replay-ops f1,f2,…`; with `--only-replay 1` nothing else runs
+    for f in args.str("replay-ops", "").split(',').filter(|f| !f.is_empty()) {
+        replay_ops(&mut log, &mut st, f).await;
+    }
+    if args.u64("only-replay", 0) == 1 {
+        st.add("lines", log.lines);
+        st.write_json(&std::path::Path::new(&out).join("stats.json"));
+        log.finish();
+        return;
+    }
 
     // corpus-style fixed cases first (the repo's own unit-test vectors)
     do_elect(&mut log, &mut st, "a@host", "b@host", &[(2, true, 7), (1, false, 19)]);
@@ -225,6 +471,8 @@ async fn main() {
     }
     for _ in 0..(cases / 4).max(5) {
         ns_case(&mut log, &mut st, &mut rng).await;
+        ns_flow(&mut log, &mut st, &mut rng).await;
+        ns_noninterference(&mut log, &mut st, &mut rng).await;
     }
     st.add("lines", log.lines);
     st.write_json(&std::path::Path::new(&out).join("stats.json"));
